@@ -196,7 +196,33 @@ func checkPubSub(sc *Scenario, rs *runState, out *explorer.Outcome) []cviol {
 			ops = append(ops, lin.Op{Thread: o.Thread, Call: o.Call, Ret: o.Ret, In: psIn{Kind: "close", Conn: o.Args[1]}, Out: psOut{}})
 		}
 	}
-	m := lin.Model{
+	m := psModel()
+	if ok, _ := lin.Check(ops, m, nil); !ok {
+		var desc []string
+		for _, o := range ops {
+			desc = append(desc, fmt.Sprintf("T%d[%d,%d] %+v -> %+v", o.Thread, o.Call, o.Ret, o.In, o.Out))
+		}
+		add("delivery-mismatch", "", fmt.Sprintf("scenario %s: no order of subscribe / unsubscribe / publish explains who received what and the PUBLISH counts: %s", sc.ID, strings.Join(desc, " ; ")))
+	}
+	// at quiescence a cancelled connection must no longer be registered
+	subs := rs.mgr.CurrentDB.VerifSubscribers()
+	for _, o := range rs.ops {
+		if o.Args[0] == "@cancel" {
+			for ch, n := range subs {
+				_ = ch
+				if n[0] != n[1] {
+					add("subscriber-count", "", fmt.Sprintf("scenario %s: channel %s has %d connections but numSubs=%d at quiescence", sc.ID, ch, n[0], n[1]))
+				}
+			}
+		}
+	}
+	return vs
+}
+
+// psModel: the sequential Pub/Sub model (who is subscribed, who is gone; PUBLISH reaches exactly the
+// subscribed connections that are not gone and reports their number).
+func psModel() lin.Model {
+	return lin.Model{
 		Init: func() interface{} { return &psState{subs: map[string]map[string]bool{}, closed: map[string]bool{}} },
 		Key:  func(st interface{}) string { return st.(*psState).key() },
 		Step: func(st interface{}, in, out interface{}) []interface{} {
@@ -239,24 +265,4 @@ func checkPubSub(sc *Scenario, rs *runState, out *explorer.Outcome) []cviol {
 			return nil
 		},
 	}
-	if ok, _ := lin.Check(ops, m, nil); !ok {
-		var desc []string
-		for _, o := range ops {
-			desc = append(desc, fmt.Sprintf("T%d[%d,%d] %+v -> %+v", o.Thread, o.Call, o.Ret, o.In, o.Out))
-		}
-		add("delivery-mismatch", "", fmt.Sprintf("scenario %s: no order of subscribe / unsubscribe / publish explains who received what and the PUBLISH counts: %s", sc.ID, strings.Join(desc, " ; ")))
-	}
-	// at quiescence a cancelled connection must no longer be registered
-	subs := rs.mgr.CurrentDB.VerifSubscribers()
-	for _, o := range rs.ops {
-		if o.Args[0] == "@cancel" {
-			for ch, n := range subs {
-				_ = ch
-				if n[0] != n[1] {
-					add("subscriber-count", "", fmt.Sprintf("scenario %s: channel %s has %d connections but numSubs=%d at quiescence", sc.ID, ch, n[0], n[1]))
-				}
-			}
-		}
-	}
-	return vs
 }
